@@ -112,6 +112,9 @@ func makeEscaper(n *nameSpace) escaper {
 // Execute call visits.
 const maxAnalysisSteps = 1000000
 
+// maxAnalysisDepth bounds the nesting depth of the nodes that the analysis descends into.
+const maxAnalysisDepth = 10000
+
 // escape escapes a template node.
 func (e *escaper) escape(c context, n parse.Node) context {
 	// The bodies of loops and of recursive templates are analysed twice, which doubles the
@@ -120,6 +123,15 @@ func (e *escaper) escape(c context, n parse.Node) context {
 		return context{
 			state: stateError,
 			err:   errorf(ErrOutputContext, n, 0, "template is too deeply nested to be analysed: more than %d nodes visited", maxAnalysisSteps),
+		}
+	}
+	// The analysis recurses into nested nodes; the stack of the goroutine is not unlimited.
+	e.ns.depth++
+	defer func() { e.ns.depth-- }()
+	if e.ns.depth > maxAnalysisDepth {
+		return context{
+			state: stateError,
+			err:   errorf(ErrOutputContext, n, 0, "template is too deeply nested to be analysed: more than %d levels", maxAnalysisDepth),
 		}
 	}
 	switch n := n.(type) {
@@ -591,7 +603,9 @@ func coalesceTextNodes(n *parse.ListNode) {
 // which is the same as whether e was updated.
 func (e *escaper) escapeListConditionally(c context, n *parse.ListNode, filter func(*escaper, context) bool) (context, bool) {
 	e1 := makeEscaper(e.ns)
-	// Make type inferences available to f.
+	// Make type inferences available to f. (The copy counts against the budget of the
+	// analysis: nested lists copy it once per level.)
+	e.ns.steps += len(e.output) / 16
 	for k, v := range e.output {
 		e1.output[k] = v
 	}
@@ -926,6 +940,8 @@ var noscriptEnd = []byte("</noscript")
 // escapeText escapes a text template node.
 func (e *escaper) escapeText(c context, n *parse.TextNode) context {
 	s, written, i, b := n.Text, 0, 0, new(bytes.Buffer)
+	// Long text counts for more than one node in the budget of the analysis.
+	e.ns.steps += len(s) / 32
 	if e.ns.cspCompatible && bytes.Contains(s, []byte("javascript:")) {
 		// This substring search is not perfect, but it is unlikely that this substring will
 		// exist in template text for any other reason than to specify a javascript URI.
